@@ -56,7 +56,7 @@ def check_c14(ctx):
     return core.finish(ctx, "model_checking", cov, [
         "one endpoint per application, calls at top level and nested in if / for each / one of / until / group; 5 applications",
         "listed and excluded sets are disjoint; the project application is excluded as the command does when --exclude is empty",
-        "plain and clustered views: arrows are also read back from the PlantUML text; endpoint-analysis view: the dependency list only",
+        "the arrows are also read back from the PlantUML text in all three views (endpoint-analysis view: an arrow between endpoint states of two applications counts as an arrow between the applications)",
         "up to one ~human application and one application with a ~hidden endpoint per model (two marks in all)",
     ])
 
